@@ -1,5 +1,447 @@
+/-
+  C17 — property theorems. All of them hold for every monad `m` of pipeline effects, every codec
+  (decoders are parameters), every pipeline, every API configuration, every request.
+-/
 import ApiFu.C17.Model
+import ApiFu.C17.Spec
+import ApiFu.C17.Lemmas
+
 namespace ApiFu.C17
-theorem placeholder_status : ∀ r : Reject, 400 ≤ r.status ∧ r.status < 500 := by
-  intro r; cases r <;> simp [Reject.status]
+
+/-! ## 1. Status codes -/
+
+/-- **reject_status_4xx** — every error return of `NewRequestFromHTTP` carries a 4xx status. -/
+theorem reject_status_4xx (rj : Reject) : 400 ≤ rj.status ∧ rj.status < 500 := by
+  cases rj <;> simp [Reject.status]
+
+/-- **reject_status_exact** — the status is 405 exactly for an unsupported method and 400 for every
+    other refusal. -/
+theorem reject_status_exact (rj : Reject) :
+    (rj.status = 405 ↔ rj = .methodNotAllowed) ∧ (rj.status = 400 ↔ rj ≠ .methodNotAllowed) := by
+  cases rj <;> simp [Reject.status]
+
+/-! ## 2. `NewRequestFromHTTP` against the declarative envelope -/
+
+/-- **decideHTTP_ok_iff** — the model of `NewRequestFromHTTP` returns request `r` exactly when the
+    declarative envelope says `h` carries `r` (GET parameters / JSON body / graphql body). -/
+theorem decideHTTP_ok_iff {J : Type} (h : AbsHttp J) (r : Req J) :
+    decideHTTP h = .ok r ↔ Accepts h r := by
+  constructor
+  · intro hd
+    unfold decideHTTP at hd
+    split at hd
+    · rename_i hm
+      split at hd
+      · cases hd
+      · rename_i v hv
+        split at hd
+        · cases hd
+        · rename_i e he
+          cases hd
+          exact Accepts.get h v e hm hv he
+    · rename_i hm
+      simp only at hd
+      split at hd
+      · rename_i hmedia
+        split at hd
+        · cases hd
+        · rename_i q op v e hb
+          cases hd
+          exact Accepts.postJson h q op v e hm hmedia hb
+      · rename_i hmedia
+        cases hd
+        exact Accepts.postGraphql h hm hmedia
+      · cases hd
+      · cases hd
+    · cases hd
+  · intro ha
+    cases ha with
+    | get v e hm hv he => simp [decideHTTP, hm, hv, he]
+    | postJson q op v e hm hmedia hb => simp [decideHTTP, hm, hmedia, hb]
+    | postGraphql hm hmedia => simp [decideHTTP, hm, hmedia]
+
+/-- **decideHTTP_error_iff** — it refuses with reason `rj` (hence with `rj.status`, `rj.message`)
+    exactly when the declarative envelope refuses for that reason: the status code and message are
+    exact per branch. -/
+theorem decideHTTP_error_iff {J : Type} (h : AbsHttp J) (rj : Reject) :
+    decideHTTP h = .error rj ↔ Rejects h rj := by
+  constructor
+  · intro hd
+    unfold decideHTTP at hd
+    split at hd
+    · rename_i hm
+      split at hd
+      · rename_i hv
+        cases hd
+        refine Rejects.variables h hm ?_
+        exact JsonParam.value_none hv
+      · rename_i v hv
+        split at hd
+        · rename_i he
+          cases hd
+          refine Rejects.extensions h hm ?_ (JsonParam.value_none he)
+          intro hbad
+          simp [hbad, JsonParam.value] at hv
+        · cases hd
+    · rename_i hm
+      simp only at hd
+      split at hd
+      · rename_i hmedia
+        split at hd
+        · rename_i hb
+          cases hd
+          exact Rejects.body h hm hmedia hb
+        · cases hd
+      · cases hd
+      · rename_i hmedia
+        cases hd
+        exact Rejects.contentType h hm (by simp [hmedia]) (by simp [hmedia])
+      · rename_i hmedia
+        cases hd
+        exact Rejects.contentType h hm (by simp [hmedia]) (by simp [hmedia])
+    · rename_i hm
+      cases hd
+      exact Rejects.method h hm
+  · intro hr
+    cases hr with
+    | method hm => simp [decideHTTP, hm]
+    | contentType hm h1 h2 =>
+      cases hmedia : h.media <;> simp_all [decideHTTP]
+    | body hm hmedia hb => simp [decideHTTP, hm, hmedia, hb]
+    | variables hm hv => simp [decideHTTP, hm, hv, JsonParam.value]
+    | extensions hm hv he =>
+      have : ∃ v, h.pVariables.value = some v := JsonParam.value_some_of_ne_bad hv
+      obtain ⟨v, hv'⟩ := this
+      simp only [decideHTTP, hm, hv']
+      simp [he, JsonParam.value]
+
+/-- **malformed_iff_rejected** — the model refuses a request exactly when the property statement
+    calls its envelope malformed (bad JSON, unsupported content type, unsupported method): nothing
+    well-formed is refused, nothing malformed is let through. -/
+theorem malformed_iff_rejected {J : Type} (h : AbsHttp J) :
+    Malformed h ↔ ∃ rj, decideHTTP h = .error rj := by
+  constructor
+  · intro hm
+    rcases hm with hm | ⟨hm, h1, h2⟩ | ⟨hm, h1, h2⟩ | ⟨hm, hv | he⟩
+    · exact ⟨_, (decideHTTP_error_iff h _).2 (Rejects.method h hm)⟩
+    · exact ⟨_, (decideHTTP_error_iff h _).2 (Rejects.contentType h hm h1 h2)⟩
+    · exact ⟨_, (decideHTTP_error_iff h _).2 (Rejects.body h hm h1 h2)⟩
+    · exact ⟨_, (decideHTTP_error_iff h _).2 (Rejects.variables h hm hv)⟩
+    · by_cases hv : h.pVariables = .nonempty .bad
+      · exact ⟨_, (decideHTTP_error_iff h _).2 (Rejects.variables h hm hv)⟩
+      · exact ⟨_, (decideHTTP_error_iff h _).2 (Rejects.extensions h hm hv he)⟩
+  · rintro ⟨rj, hd⟩
+    have hr := (decideHTTP_error_iff h rj).1 hd
+    cases hr with
+    | method hm => exact Or.inl hm
+    | contentType hm h1 h2 => exact Or.inr (Or.inl ⟨hm, h1, h2⟩)
+    | body hm h1 h2 => exact Or.inr (Or.inr (Or.inl ⟨hm, h1, h2⟩))
+    | variables hm hv => exact Or.inr (Or.inr (Or.inr ⟨hm, Or.inl hv⟩))
+    | extensions hm _ he => exact Or.inr (Or.inr (Or.inr ⟨hm, Or.inr he⟩))
+
+section pipelines
+variable {m : Type → Type} [Monad m] [LawfulMonad m] {J Def Schema Feat Cost Ctx Doc Resp : Type}
+
+/-! ## 3. Both pipelines are the one `core` computation -/
+
+/-- **serveGraphQL_eq_core** — `API.ServeGraphQL` answers a refused envelope with its status and
+    message *without running anything* (`pure`), and an accepted one with the response of `core`
+    on the decoded request, the API's schema, the features of the request context and the
+    configured default cost. -/
+theorem serveGraphQL_eq_core (P : Pipeline m J Schema Feat Cost Ctx Doc Resp) (S : SchemaOps Def Schema)
+    (a : Api Def Feat Cost Ctx) (ctx : Ctx) (h : AbsHttp J) :
+    serveGraphQL P S a ctx h =
+      match decideHTTP h with
+      | .error rj => pure (.error rj.status rj.message)
+      | .ok req => HttpOut.ok <$> core P (a.schema S) (a.features ctx) a.defaultCost ctx req := by
+  unfold serveGraphQL core
+  cases decideHTTP h with
+  | error rj => rfl
+  | ok req =>
+    simp only [map_eq_pure_bind, bind_assoc]
+    congr 1
+    funext x
+    match x with
+    | .error resp => simp
+    | .ok (doc, c) => simp
+
+/-- **handleStart_eq_core** — for an operation that is not a subscription, `HandleStart` sends
+    exactly one data frame carrying the response of `core` on (query, operationName, variables)
+    with the connection's features and the configured default cost, then `complete`. -/
+theorem handleStart_eq_core (P : Pipeline m J Schema Feat Cost Ctx Doc Resp) (S : SchemaOps Def Schema)
+    (a : Api Def Feat Cost Ctx) (connCtx : Ctx) (connFeat : Feat) (id q : String) (v : Option J) (op : String)
+    (hsub : ∀ doc, P.isSubscription doc op = false) :
+    handleStart P S a connCtx connFeat id q v op =
+      WsOut.dataThenComplete id <$>
+        core P (a.schema S) connFeat a.defaultCost connCtx { query := q, operationName := op, variables := v, extensions := none } := by
+  unfold handleStart core
+  simp only [map_eq_pure_bind, bind_assoc]
+  congr 1
+  funext x
+  match x with
+  | .error resp => simp
+  | .ok (doc, c) => simp [hsub doc]
+
+/-! ## 4. Malformed envelopes: 4xx / ignored / closed, and nothing runs -/
+
+/-- **malformed_envelope_4xx** — a malformed HTTP envelope (bad JSON in the body or in the
+    `variables` / `extensions` parameter, unsupported content type, unsupported method) is answered
+    with a status in 4xx, and the whole exchange is `pure`: no pipeline piece — parser, validator,
+    cost functions, resolvers, the `Execute` hook — is invoked, whatever they are. -/
+theorem malformed_envelope_4xx (P : Pipeline m J Schema Feat Cost Ctx Doc Resp) (S : SchemaOps Def Schema)
+    (a : Api Def Feat Cost Ctx) (ctx : Ctx) (h : AbsHttp J) (hm : Malformed h) :
+    ∃ rj : Reject, serveGraphQL P S a ctx h = pure (.error rj.status rj.message) ∧
+      400 ≤ rj.status ∧ rj.status < 500 ∧ Rejects h rj := by
+  obtain ⟨rj, hd⟩ := (malformed_iff_rejected h).1 hm
+  refine ⟨rj, ?_, (reject_status_4xx rj).1, (reject_status_4xx rj).2, (decideHTTP_error_iff h rj).1 hd⟩
+  rw [serveGraphQL_eq_core, hd]
+
+omit [LawfulMonad m] in
+/-- **ws_malformed_nothing_executed** — a frame that is not a message, a start / subscribe whose
+    payload does not decode, or one that arrives before `connection_init`, is ignored
+    (graphql-ws, and graphql-transport-ws before init) or closes the connection with 4400
+    (graphql-transport-ws); either way the exchange is `pure`: nothing is executed. -/
+theorem ws_malformed_nothing_executed (P : Pipeline m J Schema Feat Cost Ctx Doc Resp) (S : SchemaOps Def Schema)
+    (a : Api Def Feat Cost Ctx) (k : WsKind) (didInit : Bool) (ctx : Ctx) (msg : WsMsg J)
+    (hm : WsMalformed didInit msg) :
+    serveWS P S a k didInit ctx msg = pure .nothing ∨
+    ∃ text, serveWS P S a k didInit ctx msg = pure (.closed 4400 text) := by
+  cases msg with
+  | undecodable =>
+    cases k
+    · left; rfl
+    · right; exact ⟨_, rfl⟩
+  | start id p =>
+    rcases hm with hi | hp
+    · left; subst hi; rfl
+    · subst hp
+      cases didInit
+      · left; rfl
+      · cases k
+        · left; rfl
+        · right; exact ⟨_, rfl⟩
+
+/-- **ws_wellformed_reaches_handler** — conversely a start / subscribe with a decodable payload on
+    an initialised connection always reaches `HandleStart` with exactly the decoded members. -/
+theorem ws_wellformed_reaches_handler {J : Type} (k : WsKind) (id q : String) (v : Option J) (op : String) :
+    wsDecide k true (.start id (.ok q v op)) = .handleStart id q v op := by
+  cases k <;> rfl
+
+/-! ## 5. Every transport decodes what the client encoded -/
+
+/-- **transport_same_request** — for every request `r` and every transport `t` that has room for
+    `r`, decoding what a client encoded gives back exactly `r` (for HTTP: the request handed to
+    the pipeline; for WebSocket: the arguments of `HandleStart`), provided the JSON / URL / MIME
+    encoders are left inverses of the server's decoders. Whatever else the concrete request
+    carries (`Extras`: a body on GET, a query string on POST, the operation id) is irrelevant. -/
+theorem transport_same_request {J : Type} (c : Codec J) (e : Encoders J) (law : Lawful c e)
+    (x : Extras) (t : Transport) (r : Req J) (hc : canCarry t r) :
+    decode c true (encode e x t r) =
+      match t with
+      | .httpGet | .httpPostJson | .httpPostGraphql => .request r
+      | .graphqlWs | .transportWs => .wsStart x.id r := by
+  cases t with
+  | httpGet =>
+    have hnd : ((getParams e r).map Prod.fst).Nodup := getParams_nodup e r
+    have hq := law.url_get (getParams e r) "query" hnd
+    have ho := law.url_get (getParams e r) "operationName" hnd
+    have hv := law.url_get (getParams e r) "variables" hnd
+    have hx := law.url_get (getParams e r) "extensions" hnd
+    obtain ⟨q, op, v, ex⟩ := r
+    simp only [decode, encode, newRequestFromHTTP, abstractHTTP, jsonParam, hq, ho, hv, hx]
+    cases v <;> cases ex <;>
+      simp [getParams, List.lookup, decideHTTP, Method.ofString, JsonParam.value, law.map_roundtrip, law.map_nonempty]
+  | httpPostJson =>
+    obtain ⟨q, op, v, ex⟩ := r
+    simp [decode, encode, newRequestFromHTTP, abstractHTTP, decideHTTP, Method.ofString, law.media_json, law.body_roundtrip]
+  | httpPostGraphql =>
+    obtain ⟨q, op, v, ex⟩ := r
+    obtain ⟨h1, h2, h3⟩ := hc
+    simp only at h1 h2 h3
+    subst h1 h2 h3
+    simp [decode, encode, newRequestFromHTTP, abstractHTTP, decideHTTP, Method.ofString, law.media_graphql]
+  | graphqlWs =>
+    obtain ⟨q, op, v, ex⟩ := r
+    have h3 : ex = none := hc
+    subst h3
+    simp [decode, encode, abstractWS, law.message_roundtrip, law.payload_roundtrip, WsKind.startType, wsDecide]
+  | transportWs =>
+    obtain ⟨q, op, v, ex⟩ := r
+    have h3 : ex = none := hc
+    subst h3
+    simp [decode, encode, abstractWS, law.message_roundtrip, law.payload_roundtrip, WsKind.startType, wsDecide]
+
+/-! ## 6. Hence every transport yields the response of `core` -/
+
+/-- **transport_same_response** — for every API configuration, every request `r` (valid or not:
+    parse and validation errors are responses of `core` too) that is not a subscription, and every
+    transport `t` that can carry it, serving what the client encoded *is* the shared computation
+    `core` on `r` — same schema, same features (those of the context `ctx` the request / the
+    connection carries), same default cost — wrapped the way `t` delivers responses (HTTP 200 body;
+    one data frame then complete). -/
+theorem transport_same_response (P : Pipeline m J Schema Feat Cost Ctx Doc Resp) (S : SchemaOps Def Schema)
+    (a : Api Def Feat Cost Ctx) (c : Codec J) (e : Encoders J) (law : Lawful c e) (ctx : Ctx)
+    (x : Extras) (t : Transport) (r : Req J) (hc : canCarry t r)
+    (hsub : ∀ doc, P.isSubscription doc r.operationName = false) :
+    serve P S a c ctx true (encode e x t r) =
+      deliver t x <$> core P (a.schema S) (a.features ctx) a.defaultCost ctx r := by
+  have hreq := transport_same_request c e law x t r hc
+  cases t with
+  | httpGet =>
+    simp only [encode, decode] at hreq
+    simp only [encode, serve, serveGraphQL_eq_core]
+    split at hreq
+    · rename_i r' hr'
+      simp only [newRequestFromHTTP] at hr'
+      cases hreq
+      rw [hr']
+      simp only [Functor.map_map]
+      rfl
+    · cases hreq
+  | httpPostJson =>
+    simp only [encode, decode] at hreq
+    simp only [encode, serve, serveGraphQL_eq_core]
+    split at hreq
+    · rename_i r' hr'
+      simp only [newRequestFromHTTP] at hr'
+      cases hreq
+      rw [hr']
+      simp only [Functor.map_map]
+      rfl
+    · cases hreq
+  | httpPostGraphql =>
+    simp only [encode, decode] at hreq
+    simp only [encode, serve, serveGraphQL_eq_core]
+    split at hreq
+    · rename_i r' hr'
+      simp only [newRequestFromHTTP] at hr'
+      cases hreq
+      rw [hr']
+      simp only [Functor.map_map]
+      rfl
+    · cases hreq
+  | graphqlWs =>
+    obtain ⟨q, op, v, ex⟩ := r
+    have h3 : ex = none := hc
+    subst h3
+    simp only [encode, serve, abstractWS, law.message_roundtrip, law.payload_roundtrip, WsKind.startType,
+      if_true, serveWS, wsDecide, Bool.not_true, Bool.false_eq_true, if_false, handleInit]
+    rw [handleStart_eq_core P S a ctx (a.features ctx) x.id q v op hsub]
+    simp only [Functor.map_map]
+    rfl
+  | transportWs =>
+    obtain ⟨q, op, v, ex⟩ := r
+    have h3 : ex = none := hc
+    subst h3
+    simp only [encode, serve, abstractWS, law.message_roundtrip, law.payload_roundtrip, WsKind.startType,
+      if_true, serveWS, wsDecide, Bool.not_true, Bool.false_eq_true, if_false, handleInit]
+    rw [handleStart_eq_core P S a ctx (a.features ctx) x.id q v op hsub]
+    simp only [Functor.map_map]
+    rfl
+
+/-- **transports_agree** — the property itself: two transports that can both carry `r` deliver the
+    same GraphQL response content, and perform the same effects (the equation is between the two
+    whole computations in `m`). -/
+theorem transports_agree (P : Pipeline m J Schema Feat Cost Ctx Doc Resp) (S : SchemaOps Def Schema)
+    (a : Api Def Feat Cost Ctx) (c : Codec J) (e : Encoders J) (law : Lawful c e) (ctx : Ctx)
+    (x₁ x₂ : Extras) (t₁ t₂ : Transport) (r : Req J) (h₁ : canCarry t₁ r) (h₂ : canCarry t₂ r)
+    (hsub : ∀ doc, P.isSubscription doc r.operationName = false) :
+    Served.response <$> serve P S a c ctx true (encode e x₁ t₁ r) =
+    Served.response <$> serve P S a c ctx true (encode e x₂ t₂ r) := by
+  rw [transport_same_response P S a c e law ctx x₁ t₁ r h₁ hsub,
+      transport_same_response P S a c e law ctx x₂ t₂ r h₂ hsub]
+  simp only [Functor.map_map]
+  congr 1
+  funext resp
+  cases t₁ <;> cases t₂ <;> rfl
+
+/-- **ws_features_from_connection_context** — the one place where the WebSocket path differs by
+    construction: its features are those of the *connection* context at `connection_init`, the HTTP
+    path's those of each request's context. Both paths compute `core` with the same features exactly
+    when `Config.Features` gives the same answer on the two contexts (in particular when there is
+    no `Features` function). -/
+theorem ws_features_from_connection_context (a : Api Def Feat Cost Ctx) (reqCtx connCtx : Ctx)
+    (h : ∀ f, a.featuresFn = some f → f reqCtx = f connCtx) :
+    a.features reqCtx = handleInit a connCtx := by
+  unfold handleInit Api.features
+  cases hf : a.featuresFn with
+  | none => rfl
+  | some f => exact h f hf
+
+/-! ## 7. The preprocess (clone) path -/
+
+/-- **clone_path_same** — relative to the hypotheses "a clone builds a schema with the same
+    observable behaviour" (C10's clone theorems) and "the hook does not change observable
+    behaviour" (an identity-like hook: documentation only), an API configured with a
+    `PreprocessGraphQLSchemaDefinition` hook has the same schema as the one configured without, hence
+    serves every wire message identically. -/
+theorem clone_path_same (P : Pipeline m J Schema Feat Cost Ctx Doc Resp) (S : SchemaOps Def Schema)
+    (a : Api Def Feat Cost Ctx) (f : Def → Def)
+    (hclone : ∀ d, S.build (S.clone d) = S.build d)
+    (hhook : ∀ d, S.build (f d) = S.build d)
+    (c : Codec J) (ctx : Ctx) (didInit : Bool) (w : Wire) :
+    ({ a with preprocess := some f }).schema S = ({ a with preprocess := none }).schema S ∧
+    serve P S { a with preprocess := some f } c ctx didInit w =
+      serve P S { a with preprocess := none } c ctx didInit w := by
+  have hs : ({ a with preprocess := some f }).schema S = ({ a with preprocess := none }).schema S := by
+    simp [Api.schema, hhook, hclone]
+  refine ⟨hs, ?_⟩
+  cases w with
+  | http h =>
+    simp only [serve, serveGraphQL_eq_core, hs, Api.features]
+  | ws k frame =>
+    simp only [serve]
+    cases abstractWS c k frame with
+    | none => rfl
+    | some msg =>
+      simp only [serveWS, handleStart, handleInit, Api.features, hs]
+
+end pipelines
+
+/-! ## 8. Non-vacuity: the hypotheses are satisfiable, the conclusions are not trivial -/
+
+/-- A lawful codec / encoder pair exists over real strings (`Lemmas.lean`: a length-prefixed
+    packing), so `Lawful` is not an empty hypothesis. -/
+example : ∃ (c : Codec String) (e : Encoders String), Lawful c e := ⟨packCodec, packEncoders, pack_lawful⟩
+
+/-- Instantiating `transports_agree` with that codec, the identity monad and a pipeline that echoes
+    its request: GET and graphql-transport-ws deliver the same (non-trivial) response. -/
+example :
+    let P : Pipeline Id String Unit Unit Unit Unit String String :=
+      { parseAndValidate := fun q _ _ _ _ _ => if q = "" then .error "syntax error" else .ok (q, 0)
+        isSubscription := fun _ _ => false
+        execute := fun _ _ _ doc req _ => doc ++ "/" ++ req.operationName ++ "/" ++ (req.variables.getD "-") }
+    let S : SchemaOps Unit Unit := { build := id, clone := id }
+    let a : Api Unit Unit Unit Unit := { definition := (), preprocess := none, featuresFn := none, nilFeatures := (), defaultCost := () }
+    let r : Req String := { query := "{a}", operationName := "Q", variables := some "{\"x\":1}", extensions := none }
+    Served.response <$> serve P S a packCodec () true (encode packEncoders {} .httpGet r) = (some "{a}/Q/{\"x\":1}" : Id _) ∧
+    Served.response <$> serve P S a packCodec () true (encode packEncoders {} .transportWs r) = (some "{a}/Q/{\"x\":1}" : Id _) := by
+  intro P S a r
+  have h1 := transport_same_response P S a packCodec packEncoders pack_lawful () {} .httpGet r trivial (fun _ => rfl)
+  have h2 := transport_same_response P S a packCodec packEncoders pack_lawful () {} .transportWs r rfl (fun _ => rfl)
+  rw [h1, h2]
+  exact ⟨rfl, rfl⟩
+
+/-- Malformed envelopes exist and are refused with the exact code: an unsupported method gives 405,
+    an undecodable `variables` parameter 400. -/
+example :
+    decideHTTP ({ method := .other, pQuery := some "{a}", pVariables := .absent, pOperationName := none,
+                  pExtensions := .absent, media := .json, jsonBody := .bad, rawBody := "" } : AbsHttp String)
+      = .error .methodNotAllowed ∧
+    decideHTTP ({ method := .get, pQuery := some "{a}", pVariables := .nonempty .bad, pOperationName := none,
+                  pExtensions := .absent, media := .json, jsonBody := .bad, rawBody := "" } : AbsHttp String)
+      = .error .malformedVariables := by
+  exact ⟨rfl, rfl⟩
+
+/-- The quirks are in the model: a POST body's (empty) `query` member wins over `?query=`, and an
+    empty `variables` parameter is skipped rather than decoded. -/
+example :
+    decideHTTP ({ method := .post, pQuery := some "{a}", pVariables := .nonempty .bad, pOperationName := none,
+                  pExtensions := .absent, media := .json, jsonBody := .ok "" "" none none, rawBody := "{}" } : AbsHttp String)
+      = .ok { query := "", operationName := "", variables := none, extensions := none } ∧
+    decideHTTP ({ method := .get, pQuery := some "{a}", pVariables := .empty, pOperationName := none,
+                  pExtensions := .absent, media := .unparsable, jsonBody := .bad, rawBody := "" } : AbsHttp String)
+      = .ok { query := "{a}", operationName := "", variables := none, extensions := none } := by
+  exact ⟨rfl, rfl⟩
+
 end ApiFu.C17
